@@ -13,7 +13,7 @@ Definition scope_new (d : list Z) : scope := {| base := 0; data := d |}.
 
 (* ReadScope::offset *)
 Definition scope_offset (m : mode) (s : scope) (o : Z) : outcome scope :=
-  b <- uadd m (base s) o ;;
+  b <- wadd (base s) o ;;
   Ok {| base := b; data := slice_from (data s) o |}.
 
 (* ReadScope::offset_length *)
@@ -21,7 +21,7 @@ Definition offset_length (m : mode) (s : scope) (o l : Z) : outcome scope :=
   if (o <? dlen s) || (l =? 0) then
     let d := slice_from (data s) o in
     if l <=? len d then
-      b <- uadd m (base s) o ;;
+      b <- wadd (base s) o ;;
       Ok {| base := b; data := take l d |}
     else Err Eof
   else Err BadOffset.
@@ -87,7 +87,7 @@ Record rarray := { a_sc : scope; a_len : Z; a_stride : Z; a_ty : ty }.
 
 (* ReadCtxt::read_array *)
 Definition read_array (m : mode) (t : ty) (c : ctxt) (n : Z) : outcome (rarray * ctxt) :=
-  sz <- umul m n (ty_size t) ;;
+  sz <- cmul n (ty_size t) ;;
   '(s, c') <- read_scope m c sz ;;
   Ok ({| a_sc := s; a_len := n; a_stride := ty_size t; a_ty := t |}, c').
 
@@ -95,7 +95,7 @@ Definition read_array (m : mode) (t : ty) (c : ctxt) (n : Z) : outcome (rarray *
 Definition read_array_stride (m : mode) (t : ty) (c : ctxt) (n stride : Z) : outcome (rarray * ctxt) :=
   if stride <? ty_size t then Err BadValue
   else
-    sz <- umul m n stride ;;
+    sz <- cmul n stride ;;
     '(s, c') <- read_scope m c sz ;;
     Ok ({| a_sc := s; a_len := n; a_stride := stride; a_ty := t |}, c').
 
@@ -134,11 +134,11 @@ Definition arr_get (m : mode) (a : rarray) (i : Z) : outcome (option (list Z)) :
     end
   else Ok None.
 
-(* ReadArray::read_item — note: uses T::size(args), not the stride *)
+(* ReadArray::read_item *)
 Definition arr_read_item (m : mode) (a : rarray) (i : Z) : outcome (list Z) :=
   if i <? a_len a then
     let size := ty_size (a_ty a) in
-    o <- umul m i size ;;
+    o <- umul m i (a_stride a) ;;
     match offset_length m (a_sc a) o size with
     | Ok s => '(v, _) <- read_ty (a_ty a) (ctxt_new s) ;; Ok v
     | Err _ => Panic
@@ -181,14 +181,18 @@ Definition arr_to_vec (m : mode) (a : rarray) : outcome (list (list Z)) :=
 Definition iter_size_hint (a : rarray) : outcome Z :=
   if a_stride a =? 0 then Panic else Ok (dlen (a_sc a) / a_stride a).
 
-(* ReadArray::iter_res().collect::<Result<Vec<_>,_>>() / read_to_vec *)
-Fixpoint read_items (m : mode) (a : rarray) (idxs : list Z) : outcome (list (list Z)) :=
-  match idxs with
-  | [] => Ok []
-  | i :: r => v <- arr_read_item m a i ;; vs <- read_items m a r ;; Ok (v :: vs)
-  end.
+(* ReadArray::iter_res().collect::<Result<Vec<_>,_>>() / read_to_vec.
+   Fuel: every successful read_item i needs i*size + size <= dlen, so at most dlen+1 items can
+   succeed; if the fuel runs out while i < len, item i lies beyond the window and the
+   `.unwrap()` in read_item panics — hence Panic, not a value. *)
+Fixpoint read_items_from (fuel : nat) (m : mode) (a : rarray) (i : Z) : outcome (list (list Z)) :=
+  if a_len a <=? i then Ok []
+  else match fuel with
+       | O => Panic
+       | S f => v <- arr_read_item m a i ;; vs <- read_items_from f m a (i + 1) ;; Ok (v :: vs)
+       end.
 Definition arr_read_to_vec (m : mode) (a : rarray) : outcome (list (list Z)) :=
-  read_items m a (range 0 (Z.to_nat (a_len a))).
+  read_items_from (S (S (length (data (a_sc a))))) m a 0.
 
 (* ReadArray::binary_search_by with the comparator `|v| first_component(v).cmp(&key)` *)
 Inductive bsres := Found (i : Z) | NotFound (i : Z).
@@ -215,8 +219,11 @@ Fixpoint bsearch (fuel : nat) (m : mode) (a : rarray) (f : list Z -> comparison)
         end
       else Ok (NotFound left)
   end.
+(* fuel: len+1 for genuine windows; arrays whose length exceeds their window (only possible after
+   a wrapped length*stride in release builds) halve a 64-bit size at most 64 times *)
 Definition arr_binary_search (m : mode) (a : rarray) (f : list Z -> comparison) : outcome bsres :=
-  bsearch (S (Z.to_nat (a_len a))) m a f (a_len a) 0 (a_len a).
+  let fuel := if a_len a <=? dlen (a_sc a) then S (Z.to_nat (a_len a)) else 130%nat in
+  bsearch fuel m a f (a_len a) 0 (a_len a).
 
 (* -------------------------------------------------------------------------------------------
    The operation machine used by the invariant theorem and by the correspondence harness:
@@ -318,9 +325,13 @@ Definition rstep (m : mode) (st : rstate) (o : op) : rstate * outcome (list Z) :
   | OArrSearch key => (st, r <- arr_binary_search m (arr st) (cmp_key key) ;; Ok (bs_list r))
   end.
 
-(* run a whole program, collecting outputs and the cursor after each step *)
+(* what a caller can observe of the cursor: ctxt.scope().data().len() (-1 if that call panics) *)
+Definition remaining (m : mode) (c : ctxt) : Z :=
+  match ctxt_scope m c with Ok s => dlen s | _ => -1 end.
+
+(* run a whole program, collecting outputs and the observable cursor after each step *)
 Fixpoint rrun (m : mode) (st : rstate) (ops : list op) : list (outcome (list Z) * Z) :=
   match ops with
   | [] => []
-  | o :: r => let '(st', out) := rstep m st o in (out, off (cur st')) :: rrun m st' r
+  | o :: r => let '(st', out) := rstep m st o in (out, remaining m (cur st')) :: rrun m st' r
   end.
